@@ -148,6 +148,16 @@ Connect(k, inc) ==
   /\ mg' = IF inc THEN mg ELSE [mg EXCEPT !.cands = IF @ > 0 THEN @ - 1 ELSE 0]
   /\ UNCHANGED <<st, stored, panic>>
 
+\* A connection from an address that still has a peer record (a remote whose outgoing connections use its
+\* listening port, a reconnect the client has not noticed yet) is refused: one record and one task per address.
+\* As found, the new record replaced the old one while the old task went on: its reservation lost its backing
+\* and its next PieceDone / PieceCancel made the manager panic.
+ConnectDup(k) ==
+  /\ ~panic /\ k \in Conn
+  /\ mp' = IF Bug("dupAccept") THEN [mp EXCEPT ![k] = NewPeer] ELSE mp
+  /\ NoSend
+  /\ UNCHANGED <<st, mg, mq, h, bq, stored, wire, panic, ann>>
+
 \* the task ends (error, EOF, keep-alive timeout, "end job normally") and reports KillReq
 Exit(k) == /\ h' = [h EXCEPT ![k] = DeadH]
            /\ Enq(k, "Kill", None)
